@@ -311,6 +311,35 @@ def prefix_name_lists():
     return out
 
 
+def device_name_lists():
+    """One board (named and unnamed) under every kind of device name an operating system gives a
+    serial port: pyserial's own glob patterns (harvested from its enumeration modules, * filled
+    in), the macOS dial-in / call-out pair /dev/tty.* and /dev/cu.*, Windows names above COM9
+    and with the device prefix, by-id links - alone, after a foreign device, and next to its
+    sibling node.  A lookup by any reported port name, in any casing, finds that port."""
+    devices = ["/dev/tty.usbmodem1", "/dev/cu.usbmodem1", "/dev/tty.usbmodem14201",
+               "/dev/cu.usbmodem14201", "/dev/tty.Bluetooth-Incoming-Port", "COM256",
+               "\\\\.\\COM12", "/dev/serial/by-id/usb-SchmalzHaus_EiBotBoard-if00", "/dev/ttyS0",
+               "/dev/pts/3", "/dev/cuaU0", "/dev/ttyU0", "/dev/dtyU0", "/dev/rfcomm0", "/dev/ttyAMA0"]
+    for word in pyserial_words():
+        if word.startswith("/dev/") and "*" in word:
+            devices.append(word.replace("*", "x1"))
+            devices.append(word.replace("*", ".usb1"))
+    out = []
+    for dev in dict.fromkeys(devices):
+        named = (dev, "EiBotBoard,Dev", VIDPID + " SER=Dev LOCATION=2-1")
+        plain = (dev, "EiBotBoard", VIDPID + " LOCATION=2-2")
+        tagged = (dev, "USB Serial Device (" + dev.split("/")[-1] + ")", VIDPID + " SER=Tag7")
+        for board in (named, plain, tagged):
+            out.append([board])
+            out.append([DESCRIPTORS[6], board])
+        if dev.startswith("/dev/tty."):
+            sibling = ("/dev/cu." + dev[len("/dev/tty."):], "EiBotBoard", VIDPID + " LOCATION=2-3")
+            out.append([sibling, plain])
+            out.append([plain, sibling])
+    return out
+
+
 def folding_pair_lists():
     """Two boards whose names are the same under full Unicode case folding and different under
     simple lower-casing (sharp s, ligatures, final sigma, dotted capital I): whichever notion of
@@ -462,7 +491,7 @@ def run(ctx):
     part = core.fan_out(ctx, _chunk, jobs)
     part.merge(core.fan_out(ctx, _reuse_chunk, core.split(short_lists(), 32)))
     part.merge(core.fan_out(ctx, _names_chunk, core.split(name_alphabet_lists() + word_name_lists(), 16)))
-    part.merge(core.fan_out(ctx, _prefix_chunk, core.split(prefix_name_lists() + odd_hwid_lists() + folding_pair_lists(), 8)))
+    part.merge(core.fan_out(ctx, _prefix_chunk, core.split(prefix_name_lists() + odd_hwid_lists() + folding_pair_lists() + device_name_lists(), 8)))
     for clause, msg, _l in check_raising():
         part.violation(clause, msg, {"kind": "raising"})
     # long enumerations: every descriptor in turn preceded by 30 foreign ports and followed by
